@@ -1,10 +1,11 @@
 /-
-Token-level twin of the expression printer (`fmtExp`, `Rooc/Syntax/Format.lean`) on the expression
-sub-language: the same parenthesisation decisions, as tokens.  The driver checks on every generated
+Token-level twin of the expression printer (`fmtExp`, `Rooc/Syntax/Format.lean`) on the printable
+fragment: the same parenthesisation decisions, as tokens.  The driver checks on every generated
 case that lexing the printed text gives exactly these tokens.  Import-free.
 -/
 import Rooc.Syntax.Format
 import Rooc.Syntax.Doc
+import Rooc.Syntax.Parse
 namespace Rooc.Syntax
 open Rooc
 
@@ -14,26 +15,91 @@ def binKwTok : BinOp → Tok
 def unKwTok : UnOp → Tok
   | .neg => .minus | .not => .word "not"
 
+/-- `Display for VariableKind` as tokens -/
+def iterVarToks : IterVar → List Tok
+  | .single n => [.word n]
+  | .tuple ns => .lpar :: (ns.map Tok.word).intersperse .comma ++ [.rpar]
+
+/-- is this the call the printer writes as `from..to` / `from..=to`? -/
+def isRangeSugar (n : String) (args : List PExp) : Bool :=
+  match n, args with
+  | "range", [_, _, .bool _] => true
+  | _, _ => false
+
+/-- the entries of `a, b, c` -/
+def splitItems : List Char → List Char → List (List Char)
+  | [], cur => [cur.reverse]
+  | ',' :: ' ' :: r, cur => cur.reverse :: splitItems r []
+  | c :: r, cur => splitItems r (c :: cur)
+
+/-- natural numbers of the display of an integer array (`[1, 2, 3]`), if it is one -/
+def intArrayOf (d : String) : Option (List Nat) :=
+  match d.toList with
+  | '[' :: rest =>
+    match rest.reverse with
+    | ']' :: body =>
+      let body := body.reverse
+      if body.isEmpty then some []
+      else
+        let items := splitItems body []
+        if items.all (fun it => !it.isEmpty && it.all isDigit) then some (items.map digitsToNat)
+        else none
+    | _ => none
+  | _ => none
+
+def intArrayToks (ns : List Nat) : List Tok :=
+  .lbrack :: (ns.map (fun v => Tok.int (String.ofList (natDigits v)))).intersperse .comma ++ [.rbrack]
+
 mutual
 def fmtToks : PExp → List Tok
   | .int v => [.int (String.ofList (natDigits v))]
   | .num t => [.float t]
   | .bool b => [.word (if b then "true" else "false")]
+  | .str s => [.str s]
+  | .prim d =>
+    match intArrayOf d with
+    | some ns => intArrayToks ns
+    | none => []
   | .var n => [.word n]
+  | .cvar n idx => .word n :: fmtToksIdx idx
+  | .access n idx => .word n :: fmtToksAcc idx
   | .call n args => .word n :: .lpar :: fmtToksArgs args ++ [.rpar]
+  | .block k es => .word k :: .lbrace :: fmtToksArgs es ++ [.rbrace]
+  | .scoped k vs its body => .word k :: .lpar :: fmtToksIters vs its ++ .rpar :: .lbrace :: fmtToks body ++ [.rbrace]
   | .un op e => unKwTok op :: (if e.isLeaf then fmtToks e else parenToks (fmtToks e))
   | .bin op l r =>
     (if printsParen op false l then parenToks (fmtToks l) else fmtToks l)
       ++ binKwTok op :: (if printsParen op true r then parenToks (fmtToks r) else fmtToks r)
-  | _ => []
 def fmtToksArgs : List PExp → List Tok
   | [] => []
   | [a] => fmtToks a
   | a :: b :: rest => fmtToks a ++ .comma :: fmtToksArgs (b :: rest)
+/-- indexes of a compound variable: a name, an integer, anything else in braces -/
+def fmtToksIdx : List PExp → List Tok
+  | [] => []
+  | .var i :: es => .us :: .word i :: fmtToksIdx es
+  | .int v :: es => .us :: .int (String.ofList (natDigits v)) :: fmtToksIdx es
+  | e :: es => .us :: .lbrace :: fmtToks e ++ .rbrace :: fmtToksIdx es
+def fmtToksAcc : List PExp → List Tok
+  | [] => []
+  | e :: es => .lbrack :: fmtToks e ++ .rbrack :: fmtToksAcc es
+/-- `Display for IterableSet` with the range sugar of `std_fn_to_string` -/
+def fmtToksIters : List IterVar → List PExp → List Tok
+  | [v], [e] => iterVarToks v ++ .word "in" :: fmtToksIter e
+  | v :: vs, e :: es => iterVarToks v ++ .word "in" :: fmtToksIter e ++ .comma :: fmtToksIters vs es
+  | _, _ => []
+def fmtToksIter : PExp → List Tok
+  | .call "range" [a, b, .bool incl] =>
+    (if a.isLeaf then fmtToks a else parenToks (fmtToks a))
+      ++ (if incl then .dotdoteq else .dotdot) :: (if b.isLeaf then fmtToks b else parenToks (fmtToks b))
+  | e => fmtToks e
 end
 
-/-- the expression sub-language as the printer sees it (no escaped names, no range sugar, float texts
-that are float literals) -/
+/-- `for …` behind a constraint / a domain declaration -/
+def forToks (vs : List IterVar) (its : List PExp) : List Tok :=
+  if its.isEmpty then [] else .word "for" :: fmtToksIters vs its
+
+/-- float texts that are float literals -/
 def isFloatText (s : String) : Bool :=
   let cs := s.toList
   let ip := cs.takeWhile isDigit
@@ -41,19 +107,53 @@ def isFloatText (s : String) : Bool :=
   | '.' :: fp => !ip.isEmpty && !fp.isEmpty && fp.all isDigit
   | _ => false
 
+/-- a name the lexer reads as one word and the parser as a variable: `LETTER (LETTER | NUMBER)*`, no keyword -/
+def plainVar (n : String) : Bool := isPlainRun n.toList && !(isKeyword n)
+
+def printableIterVar : IterVar → Bool
+  | .single n => plainVar n
+  | .tuple ns => !ns.isEmpty && ns.all plainVar
+
 mutual
+/-- THE PRINTABLE FRAGMENT of expressions: trees the printer writes in a form the lexer model cuts into `fmtToks`
+and the parser model reads back as the same tree.  Outside: escaped names (inner `_`, `$`), float texts that are
+no float literal (`inf`, `NaN`, exponent forms), calls whose name has an underscore, the range sugar outside an
+iterator, opaque primitives (graphs, arrays other than integer arrays), strings with `"` or `\`, float / string
+indexes of compound variables, unknown block kinds. -/
 def coreExp : PExp → Bool
-  | .int _ => true
+  | .int v => decide (v ≤ i64Max)
   | .num t => isFloatText t
   | .bool _ => true
-  | .var n => !(needsEscape n)
-  | .call n args => n != "range" && n.toList.all isLetter && coreList args
+  | .str s => s.toList.all (fun c => c != '"' && c != '\\' && c != '\n' && c != '\r')
+  | .prim d =>
+    match intArrayOf d with
+    | some ns => ns.all (fun v => decide (v ≤ i64Max)) && d == arrayText (ns.map (fun v => String.ofList (natDigits v)))
+    | none => false
+  | .var n => plainVar n
+  | .cvar n idx => isPlainRun n.toList && !idx.isEmpty && coreIdx idx
+  | .access n idx => isPlainRun n.toList && n != "not" && !idx.isEmpty && coreList idx
+  | .call n args => !(isRangeSugar n args) && n != "not" && isFunctionName n && coreList args
+  | .block k es => Gen.blockKinds.any (fun e => e.2 == k) && (blockKindErr k es.length).isNone && !es.isEmpty && coreList es
+  | .scoped k vs its b =>
+    Gen.scopedKinds.any (fun e => e.2 == k) && !its.isEmpty && vs.length == its.length && vs.all printableIterVar
+      && coreIters its && coreExp b
   | .un _ e => coreExp e
   | .bin _ l r => coreExp l && coreExp r
-  | _ => false
 def coreList : List PExp → Bool
   | [] => true
   | e :: es => coreExp e && coreList es
+def coreIdx : List PExp → Bool
+  | [] => true
+  | .num _ :: _ => false
+  | .str _ :: _ => false
+  | .var i :: es => isPlainRun i.toList && coreIdx es
+  | e :: es => coreExp e && coreIdx es
+def coreIters : List PExp → Bool
+  | [] => true
+  | e :: es => coreIter e && coreIters es
+def coreIter : PExp → Bool
+  | .call "range" [a, b, .bool _] => coreExp a && coreExp b
+  | e => coreExp e
 end
 
 end Rooc.Syntax
